@@ -35,7 +35,8 @@ class Parser(Emitter):
             error = str(formulaserror.from_message(e))
 
         if isinstance(result, formulaserror.XLError):
-            error = str(result)
+            # report the canonical code (a host may hand in an XLError of its own making)
+            error = str(formulaserror.from_message(result))
             result = None
         return {'result': result, 'error': error}
 
